@@ -2,5 +2,6 @@ INIT Init
 NEXT Next
 INVARIANT Emit
 INVARIANT EmitZ
+INVARIANT EmitS
 CONSTANT Stride = 3
 CHECK_DEADLOCK FALSE
